@@ -126,7 +126,7 @@ def run(R: vlib.Run):
     if "VERIF_CASE_TIMEOUT" not in os.environ:
         R.case_budget = 120.0 if R.tier == "quick" else 600.0   # every implementation call here is a tiny read, ticked individually
     R.prove("Props/C01.v")
-    R.need(["Model/Plan.vo"])
+    R.need(["Model/Plan.vo", "Model/PlanForms.vo"])
     rng = R.rng
     nprng = np.random.default_rng(R.seed)
     d = os.path.join(vlib.SCRATCH, f"c01_{os.getpid()}")
@@ -156,9 +156,13 @@ def run(R: vlib.Run):
             check_case(R, x, nch, N, nbits, splits, gulp, start, nsamps, skipback, tr)
             if not tie:
                 return
-            pick = (gulp + start + nsamps + skipback) % 3 == 0
+            ns_coq = "None" if nsamps_arg is _DEFAULT else f"(Some {nsamps})"   # the model takes the argument as it was passed (Model/PlanForms.v run_plan_opt)
+            # 8-bit: every case is tied.  The other depths: the original cases one time in three, every added case (recognisable by its label
+            # or by nsamps left out)
+            added = label is not None or nsamps_arg is _DEFAULT
+            pick = (gulp + start + nsamps + skipback) % 3 == 0 or added
             if nbits == 8:
-                corr.append((nch, x, splits, gulp, start, nsamps, skipback, tr))
+                corr.append((nch, x, splits, gulp, start, ns_coq, skipback, tr))
             elif nbits in (1, 2, 4) and pick:
                 corrp.append((nch, nbits, x, splits, gulp, start, nsamps, skipback, tr))
             elif nbits in (16, 32) and pick:
@@ -167,7 +171,7 @@ def run(R: vlib.Run):
                 dt = filutil.dtype_for(nbits)
                 xb = np.frombuffer(np.ascontiguousarray(x).astype(dt).tobytes(), dtype=np.uint8).reshape(x.shape[0], nch * isz)
                 trb = (tr[0], [(b[0], b[1], np.frombuffer(np.ascontiguousarray(b[2]).tobytes(), dtype=np.uint8)) for b in tr[1]], tr[2])
-                corr.append((nch * isz, xb, splits, gulp, start, nsamps, skipback, trb))
+                corr.append((nch * isz, xb, splits, gulp, start, ns_coq, skipback, trb))
 
         def skipbacks(gulp, nsamps):
             """every 0..effective gulp, then: just above the effective gulp (above the nominal gulp too unless gulp > nsamps), far above
@@ -185,7 +189,7 @@ def run(R: vlib.Run):
             for start in range(0, N + 1):
                 for gulp in gulps:
                     for skipback in (0, 1, -2):
-                        explore(fil, x, nch, N, nbits, splits, gulp, start, N - start, skipback, tag=("to-end",), nsamps_arg=_DEFAULT, tie=(start < N),
+                        explore(fil, x, nch, N, nbits, splits, gulp, start, N - start, skipback, tag=("to-end",), nsamps_arg=_DEFAULT,
                                 label=None if (gulp, skipback) == (2, 1) else "c01 ")
             # every argument left out: gulp 16384, start 0, to the end, no skipback -> one block with the whole set
             R.tick({'nbits': nbits, 'splits': splits, 'call': 'read_plan() with every argument left out'})
@@ -204,9 +208,7 @@ def run(R: vlib.Run):
                 for nsamps in range(1, N - start + 1):
                     for gulp in range(1, nsamps + 2):
                         for skipback in skipbacks(gulp, nsamps):
-                            # the added values are tied to the Coq model one time in three (rejections are C01_plan_reject for every value)
                             explore(fil, x, nch, N, nbits, splits, gulp, start, nsamps, skipback,
-                                    tie=(0 <= skipback <= min(gulp, nsamps) or (gulp + start + nsamps + skipback) % 3 == 0),
                                     label=None if 0 <= skipback <= min(gulp, nsamps) else "c01 ")
                     # nominal gulp well above the range: nsamps < |skipback| < gulp must be rejected like |skipback| >= gulp
                     for skipback in (nsamps + 1, -(nsamps + 2), nsamps + 3):
@@ -224,7 +226,7 @@ def run(R: vlib.Run):
                 for nsamps in range(1, Ns - start + 1):
                     for gulp in range(1, nsamps + 2):
                         for skipback in range(0, min(gulp, nsamps) + 1):
-                            explore(fil, xs, 3, Ns, 8, splits, gulp, start, nsamps, skipback, tag=("layout",), tie=((li + gulp + start + nsamps + skipback) % 3 == 0), label="c01 ")
+                            explore(fil, xs, 3, Ns, 8, splits, gulp, start, nsamps, skipback, tag=("layout",), label="c01 ")
             explore(fil, xs, 3, Ns, 8, splits, 2, 0, Ns, 1, tag=("to-end",), nsamps_arg=_DEFAULT)
         # random larger cases
         for _ in range(60 if R.tier == "quick" else 600):
@@ -253,6 +255,11 @@ def run(R: vlib.Run):
         # ---- correspondence: Model/Plan.v run_plan vs the implementation's trace (8-bit files) ----
         per = 400
         enc_kind = {"ok": 0, "err-before": 1, "err-after": 2}
+        jobs = []   # (file name, text, timeout, what to do with coqc's output)
+
+        def enc_exc(name):
+            """class of the exception that ended the iteration, as Model/PlanForms.v err_code: 0 none, 1 ValueError, 2 anything else"""
+            return 0 if name is None else 1 if name == "ValueError" else 2
         for si in range(0, len(corr), per):
             sh = corr[si:si + per]
             rows = []
@@ -260,28 +267,29 @@ def run(R: vlib.Run):
                 bounds = [0] + list(splits) + [x.shape[0]]
                 fs = "[" + "; ".join(f"mkfile [224] {vlib.zlist(x[bounds[i]:bounds[i + 1]].ravel())}" for i in range(len(bounds) - 1)) + "]"
                 bl = "[" + "; ".join(f"({b[0]}, {b[1]}, {vlib.zlist(b[2])})" for b in tr[1]) + "]"
-                rows.append(f"({fs}, {nch}, ({gulp}, {start}, {nsamps}, {skipback}), ({enc_kind[tr[0]]}, {bl}))")
-            v = ["From Coq Require Import ZArith List Bool.", "Require Import SPP.Base.Rt SPP.Model.Stream SPP.Model.Plan.", "Import ListNotations.", "Open Scope Z_scope.",
+                rows.append(f"({fs}, {nch}, ({gulp}, {start}, {nsamps}, {skipback}), ({enc_kind[tr[0]]}, {enc_exc(tr[2])}, {bl}))")
+            v = ["From Coq Require Import ZArith List Bool.", "Require Import SPP.Base.Rt SPP.Model.Stream SPP.Model.Plan SPP.Model.PlanForms.", "Import ListNotations.", "Open Scope Z_scope.",
                  "Definition eqb3 (a b : Z * Z * list Z) : bool := let '(n1, i1, l1) := a in let '(n2, i2, l2) := b in (n1 =? n2) && (i1 =? i2) && list_eqb l1 l2.",
                  "Fixpoint alleq (a b : list (Z * Z * list Z)) : bool := match a, b with [], [] => true | x :: r, y :: s => eqb3 x y && alleq r s | _, _ => false end.",
-                 "Definition cases : list (list file * Z * (Z * Z * Z * Z) * (Z * list (Z * Z * list Z))) := [", ";\n".join(rows), "].",
-                 "Definition ok (c : list file * Z * (Z * Z * Z * Z) * (Z * list (Z * Z * list Z))) : bool :=",
-                 "  let '(fs, nch, (gulp, start, nsamps, skipback), (k, bl)) := c in",
-                 "  let '(k', bl') := trace_enc (run_plan fs nch gulp start nsamps skipback) in (k =? k') && alleq bl bl'.",
+                 "Definition cases : list (list file * Z * (Z * Z * option Z * Z) * (Z * Z * list (Z * Z * list Z))) := [", ";\n".join(rows), "].",
+                 "Definition ok (c : list file * Z * (Z * Z * option Z * Z) * (Z * Z * list (Z * Z * list Z))) : bool :=",
+                 "  let '(fs, nch, (gulp, start, nsamps, skipback), (k, e, bl)) := c in",
+                 "  let '(k', e', bl') := trace_enc_exc (run_plan_opt fs nch gulp start nsamps skipback) in (k =? k') && (e =? e') && alleq bl bl'.",
                  "Definition idx := map fst (filter (fun p => negb (ok (snd p))) (combine (seq 0 (length cases)) cases)).",
                  "Eval vm_compute in (length cases, idx)."]
-            rc, outp = vlib.coq_run(f"c01_{si // per}", "\n".join(v), timeout=300)
-            vals = vlib.parse_eval(outp)
-            if rc != 0 or not vals:
-                R.red.append("correspondence: Corr/c01 did not evaluate: " + outp[-400:])
-                continue
-            nums = [int(z) for z in re.findall(r"(\d+)%nat", vals[0])]
-            R.extra_cov["traces_validated_against_impl"] = R.extra_cov.get("traces_validated_against_impl", 0) + (nums[0] if nums else 0)
-            for bi in nums[1:4]:
-                nch, x, splits, gulp, start, nsamps, skipback, tr = sh[bi]
-                R.disagree("Model/Plan.v run_plan and FilReader.read_plan differ",
-                           {"nchans": nch, "x": x.tolist(), "splits": splits, "gulp": gulp, "start": start, "nsamps": nsamps, "skipback": skipback,
-                            "impl": (tr[0], [(b[0], b[1], b[2].tolist()) for b in tr[1]])})
+            def post(rc, outp, sh=sh):
+                vals = vlib.parse_eval(outp)
+                if rc != 0 or not vals:
+                    R.red.append("correspondence: Corr/c01 did not evaluate: " + outp[-400:])
+                    return
+                nums = [int(z) for z in re.findall(r"(\d+)%nat", vals[0])]
+                R.extra_cov["traces_validated_against_impl"] = R.extra_cov.get("traces_validated_against_impl", 0) + (nums[0] if nums else 0)
+                for bi in nums[1:4]:
+                    nch, x, splits, gulp, start, nsamps, skipback, tr = sh[bi]
+                    R.disagree("Model/PlanForms.v run_plan_opt and FilReader.read_plan differ (blocks, where the iteration ended, or the class of the exception)",
+                               {"nchans": nch, "x": x.tolist(), "splits": splits, "gulp": gulp, "start": start, "nsamps": nsamps, "skipback": skipback,
+                                "impl": (tr[0], [(b[0], b[1], b[2].tolist()) for b in tr[1]], tr[2])})
+            jobs.append((f"c01_{si // per}", "\n".join(v), 300, post))
         # ---- correspondence at the packed depths: Model/PlanPacked.v run_plan_packed (plan o generated unpack kernels) ----
         from sigpyproc.io import bits as _bits
         R.need(["Model/PlanPacked.vo"])
@@ -294,28 +302,39 @@ def run(R: vlib.Run):
                 fs = "[" + "; ".join("mkfile [224] " + vlib.zlist(_bits.pack(x[bounds[i]:bounds[i + 1]].ravel().astype(np.uint8), nbits, bitorder=order))
                                      for i in range(len(bounds) - 1)) + "]"
                 bl = "[" + "; ".join(f"({b[0]}, {b[1]}, {vlib.zlist(b[2])})" for b in tr[1]) + "]"
-                rows.append(f"({fs}, ({nch}, {nbits}, {'true' if order[0] == 'b' else 'false'}), ({gulp}, {start}, {nsamps}, {skipback}), ({enc_kind[tr[0]]}, {bl}))")
-            v = ["From Coq Require Import ZArith List Bool.", "Require Import SPP.Base.Rt SPP.Model.Stream SPP.Model.Plan SPP.Model.PlanPacked.", "Import ListNotations.", "Open Scope Z_scope.",
+                rows.append(f"({fs}, ({nch}, {nbits}, {'true' if order[0] == 'b' else 'false'}), ({gulp}, {start}, {nsamps}, {skipback}), ({enc_kind[tr[0]]}, {enc_exc(tr[2])}, {bl}))")
+            v = ["From Coq Require Import ZArith List Bool.", "Require Import SPP.Base.Rt SPP.Model.Stream SPP.Model.Plan SPP.Model.PlanPacked SPP.Model.PlanForms.", "Import ListNotations.", "Open Scope Z_scope.",
                  "Definition eqb3 (a b : Z * Z * list Z) : bool := let '(n1, i1, l1) := a in let '(n2, i2, l2) := b in (n1 =? n2) && (i1 =? i2) && list_eqb l1 l2.",
                  "Fixpoint alleq (a b : list (Z * Z * list Z)) : bool := match a, b with [], [] => true | x :: r, y :: s => eqb3 x y && alleq r s | _, _ => false end.",
-                 "Definition cases : list (list file * (Z * Z * bool) * (Z * Z * Z * Z) * (Z * list (Z * Z * list Z))) := [", ";\n".join(rows), "].",
-                 "Definition ok (c : list file * (Z * Z * bool) * (Z * Z * Z * Z) * (Z * list (Z * Z * list Z))) : bool :=",
-                 "  let '(fs, (nch, nbits, big), (gulp, start, nsamps, skipback), (k, bl)) := c in",
-                 "  let '(k', bl') := trace_enc (run_plan_packed fs nch nbits big gulp start nsamps skipback (fun _ => 7)) in (k =? k') && alleq bl bl'.",
+                 "Definition cases : list (list file * (Z * Z * bool) * (Z * Z * Z * Z) * (Z * Z * list (Z * Z * list Z))) := [", ";\n".join(rows), "].",
+                 "Definition ok (c : list file * (Z * Z * bool) * (Z * Z * Z * Z) * (Z * Z * list (Z * Z * list Z))) : bool :=",
+                 "  let '(fs, (nch, nbits, big), (gulp, start, nsamps, skipback), (k, e, bl)) := c in",
+                 "  let '(k', e', bl') := trace_enc_exc (run_plan_packed fs nch nbits big gulp start nsamps skipback (fun _ => 7)) in (k =? k') && (e =? e') && alleq bl bl'.",
                  "Definition idx := map fst (filter (fun p => negb (ok (snd p))) (combine (seq 0 (length cases)) cases)).",
                  "Eval vm_compute in (length cases, idx)."]
-            rc, outp = vlib.coq_run(f"c01p_{si // per}", "\n".join(v), timeout=600)
-            vals = vlib.parse_eval(outp)
-            if rc != 0 or not vals:
-                R.red.append("correspondence: Corr/c01p did not evaluate: " + outp[-400:])
-                continue
-            nums = [int(z) for z in re.findall(r"(\d+)%nat", vals[0])]
-            R.extra_cov["packed_traces_validated_against_impl"] = R.extra_cov.get("packed_traces_validated_against_impl", 0) + (nums[0] if nums else 0)
-            for bi in nums[1:4]:
-                nch, nbits, x, splits, gulp, start, nsamps, skipback, tr = sh[bi]
-                R.disagree("Model/PlanPacked.v run_plan_packed and FilReader.read_plan differ",
-                           {"nchans": nch, "nbits": nbits, "x": x.tolist(), "splits": splits, "gulp": gulp, "start": start, "nsamps": nsamps, "skipback": skipback,
-                            "impl": (tr[0], [(b[0], b[1], b[2].tolist()) for b in tr[1]])})
+            def postp(rc, outp, sh=sh):
+                vals = vlib.parse_eval(outp)
+                if rc != 0 or not vals:
+                    R.red.append("correspondence: Corr/c01p did not evaluate: " + outp[-400:])
+                    return
+                nums = [int(z) for z in re.findall(r"(\d+)%nat", vals[0])]
+                R.extra_cov["packed_traces_validated_against_impl"] = R.extra_cov.get("packed_traces_validated_against_impl", 0) + (nums[0] if nums else 0)
+                for bi in nums[1:4]:
+                    nch, nbits, x, splits, gulp, start, nsamps, skipback, tr = sh[bi]
+                    R.disagree("Model/PlanPacked.v run_plan_packed and FilReader.read_plan differ (blocks, where the iteration ended, or the class of the exception)",
+                               {"nchans": nch, "nbits": nbits, "x": x.tolist(), "splits": splits, "gulp": gulp, "start": start, "nsamps": nsamps, "skipback": skipback,
+                                "impl": (tr[0], [(b[0], b[1], b[2].tolist()) for b in tr[1]], tr[2])})
+            jobs.append((f"c01p_{si // per}", "\n".join(v), 600, postp))
+        # the files are independent: four coqc at a time (the case budget is paused for the whole batch, as vlib.coq_run does for one file)
+        from concurrent.futures import ThreadPoolExecutor
+        vlib.watch_disarm()
+        try:
+            with ThreadPoolExecutor(max_workers=4) as ex:
+                outs = list(ex.map(lambda j: vlib.coq_run(j[0], j[1], timeout=j[2]), jobs))
+        finally:
+            vlib.watch_arm()
+        for (name_, _t, _to, post_), (rc, outp) in zip(jobs, outs):
+            post_(rc, outp)
     finally:
         shutil.rmtree(d, ignore_errors=True)
 
